@@ -7,7 +7,9 @@ mod ident;
 mod inst;
 mod json;
 mod oracle;
+mod oracle2;
 mod search;
+mod search2;
 mod proto;
 mod rt;
 mod run;
